@@ -69,6 +69,14 @@ CHECKS = {
             "Trusted: the harness interpreter of dat.rst / xml-names.rst semantics; generator ground truth for chain "
             "ends; the parameter files themselves are the specification (an edited .DAT is a different force field, "
             "not a violation).", "DESIGN.md#c01"),
+    "C02": ("exploration", "state-model monitor: per-residue charge sums of whole runs vs the formal charge of an independently derived final state at the generator's true chain position",
+            "For every residue of every successful run whose atoms all received parameters, the sum of assigned "
+            "charges (object values and PQR column) is compared at 1e-3 with the formal charge of the state derived "
+            "from generator truth + atoms present; strands against -1 per phosphate, waters against 0, the PQR total "
+            "against the integer sum. Workloads enumerate input name x position x force field and stress chain "
+            "topology (ids, numbering, hidden ends, cyclic threshold, single-residue chains, mixes).",
+            "Trusted: generator ground truth for chain ends; the formal-charge table in vf/ref/states.py; residues "
+            "with an unassigned atom are outside the claim (counted in the evidence).", "DESIGN.md#c02"),
 }
 
 NOT_APPLICABLE = {}
